@@ -13,6 +13,8 @@ structure RSt where
   m : State := {}
   nh : Nat := 0
   seenLog : Nat := 0
+  exact : Bool := false                              -- C04: S = every handle is an independent nested value
+  sp : List (Option (List (Option (List Nat)))) := []   -- S of the stage part: per handle, per dimension, the values
   deriving Inhabited
 
 def evStr : Ev → String
@@ -61,11 +63,14 @@ def tree : Nat → State → List Nat → Option Nat → String
           | .arr c => tree fuel s (path ++ [b]) c
           | .mref (some o) => s!"o{o}"
           | .mref none => "-"
+          | .num k => toString k
         let tag := match x.kind with
           | .tok => "T"
           | .arr => "A"
           | .mref => "M"
           | .uref => "U"
+          | .vst => "V"
+          | .dbl => "D"
         tag ++ "[" ++ " ".intercalate items ++ "]"
 
 def render (st : RSt) (m : State) (verdict ret : String) : RSt × String :=
@@ -84,8 +89,16 @@ def render (st : RSt) (m : State) (verdict ret : String) : RSt × String :=
     match m.objs[i]? with
     | some o => if o.dead then s!"o{i + 1}:x" else s!"o{i + 1}:r{o.refs}"
     | none => "?")
+  let specText (sp : List (Option (List (Option (List Nat))))) : String :=
+    String.join ((List.range st.nh).map fun h =>
+      s!" h{h}=" ++ match sp.getD h none with
+        | none => "-"
+        | some dims => "V[" ++ " ".intercalate (dims.map fun d => match d with
+            | none => "-"
+            | some vs => "D[" ++ " ".intercalate (vs.map toString) ++ "]") ++ "]")
+  let sText := if st.exact then s!"legal ; {verdict} ev=-" ++ specText st.sp else "legal ; *"
   ({ st with m := m, seenLog := m.log.length },
-   s!"R legal | C {verdict} ev={evText}" ++ String.join hsText ++ s!" | I ret={ret} bufs={bufsText} objs={objsText} | S legal ; *")
+   s!"R legal | C {verdict} ev={evText}" ++ String.join hsText ++ s!" | I ret={ret} bufs={bufsText} objs={objsText} | S {sText}")
 
 def retInt (r : Int) : String × String :=
   if r < 0 then ("refused", match r with
@@ -112,7 +125,7 @@ def appendElem (m : State) (h : Nat) (e : Elem) : State :=
      | none => m)
   | none => m
 
-def step (st : RSt) (w : List String) : RSt × String :=
+def step (exact : Bool) (st : RSt) (w : List String) : RSt × String :=
   let bad : RSt × String := (st, "bad-op")
   let m := st.m
   match w with
@@ -121,10 +134,10 @@ def step (st : RSt) (w : List String) : RSt × String :=
     | some n =>
       if n < 1 ∨ n > 6 then bad
       else
-        let st' : RSt := { m := { hs := List.replicate n none }, nh := n, seenLog := 0 }
+        let st' : RSt := { m := { hs := List.replicate n none }, nh := n, seenLog := 0, exact := exact, sp := List.replicate n none }
         render st' st'.m "ok" "-"
     | none => bad
-  | ["r", "end"] => if st.nh = 0 then bad else render st (dropAll m st.nh) "ok" "-"
+  | ["r", "end"] => if st.nh = 0 then bad else render { st with sp := List.replicate st.nh none } (dropAll m st.nh) "ok" "-"
   | "r" :: op :: hs :: args =>
     if st.nh = 0 then bad
     else
@@ -134,13 +147,27 @@ def step (st : RSt) (w : List String) : RSt × String :=
         match op, args with
         | "drop", [] =>
           let (m1, r) := arrayClone m h none true
-          render st m1 (retInt r).1 (retInt r).2
+          render { st with sp := st.sp.set h none } m1 (retInt r).1 (retInt r).2
         | "clone", [h2] =>
           match handleArg st.nh h2 with
           | some h2 =>
             let (m1, r) := arrayClone m h (m.handle h2) false
-            render st m1 (retInt r).1 (retInt r).2
+            let sp := if r < 0 then st.sp else st.sp.set h (st.sp.getD h2 none)
+            render { st with sp := sp } m1 (retInt r).1 (retInt r).2
           | none => bad
+        | "sput", [dim, k] =>
+          match nat? dim, nat? k with
+          | some dim, some k =>
+            if dim > 6 ∨ k > 99 then bad
+            else
+              let (m1, ok) := stagePut m h dim k
+              if ok then
+                let dims := (st.sp.getD h none).getD []
+                let dims := dims ++ List.replicate (dim + 1 - dims.length) none
+                let dims := dims.set dim (some ((dims.getD dim none).getD [] ++ [k]))
+                render { st with sp := st.sp.set h (some dims) } m1 "ok" "-"
+              else render st m1 "refused" "null"
+          | _, _ => bad
         | "leaf", [k] =>
           match nat? k with
           | some k =>
@@ -242,13 +269,14 @@ def step (st : RSt) (w : List String) : RSt × String :=
                 let (m1, r) := detach m0 h
                 match r.bind m1.buf?, r with
                 | some x, some b =>
-                  -- overwritten elements are destroyed first, then the new ones are copy-constructed
+                  -- the new elements are copy-constructed first, then the replaced ones are destroyed (a new element
+                  -- may refer to the same buffer or instance as the one it replaces)
                   let old := (x.elems.drop i).take n
-                  let m2 := old.foldl finiElem m1
-                  let (m3, es) := copyElems m2 srcs
-                  let m4 := match m3.buf? b with
-                    | some y => m3.setBuf b { y with elems := y.elems.take i ++ es ++ y.elems.drop (i + n) }
-                    | none => m3
+                  let (m2, es) := copyElems m1 srcs
+                  let m3 := match m2.buf? b with
+                    | some y => m2.setBuf b { y with elems := y.elems.take i ++ es ++ y.elems.drop (i + n) }
+                    | none => m2
+                  let m4 := old.foldl finiElem m3
                   render st m4 "ok" "ptr"
                 | _, _ => render st m1 "refused" "null"
           | _, _, _, _ => bad
